@@ -7,7 +7,7 @@ static bool gThorough = false;
 
 int main(int argc, char **argv) {
   vf::Opts o = vf::parseOpts(argc, argv);
-  gThorough = o.thorough();
+  gThorough = o.thorough() && o.pass != "san";  // the secondary sanitizer pass of the thorough tier uses the quick alphabet
   vf::Check<Spec> c;
   c.property = "C02";
   c.level = "model_checking";
